@@ -514,6 +514,18 @@ def r02_13(ctx, rep):
         raise MechanismMissing(R, "no use of a fetched row found in parser.py")
 
 
+@SPEC.rule(
+    "R02.14",
+    "calls share nothing but the database: no function of parser.py keeps state between calls in a module-level container, a caching "
+    "decorator or an attribute hung on a function object — other than the set of databases checked in this process (R02.8/R02.10); a "
+    "`last text / last digest` memo written by two statements pairs one thread's text with another thread's digest, and the next parse "
+    "looks up and stores under the wrong key",
+)
+def r02_14(ctx, rep):
+    from .c25 import module_state_free
+    module_state_free(ctx, rep, "R02.14", PARSER, "the parser module (parse() and the cache helpers)")
+
+
 # -- seeded variants ---------------------------------------------------------
 from ._mut import delete_stmt_where, replace_const_str, replace_in_func  # noqa: E402
 
